@@ -13,6 +13,11 @@ pub struct Item {
     pub focus_decl: usize,
 }
 
+/// families that sampling checks never thin out (small, each member is there for a reason)
+pub fn always_included(family: &str) -> bool {
+    matches!(family, "G1-whole-programs" | "names" | "many-parameters")
+}
+
 fn main_index(p: &RProgram) -> usize {
     p.decls
         .iter()
@@ -169,6 +174,35 @@ pub fn syntactic_family(tier: Tier) -> Vec<Item> {
         let mut d2 = decls;
         d2.swap(2, 3);
         out.push(Item { family: "names", program: RProgram { decls: d2 }, focus_decl: 3 });
+    }
+    // procedures with four and five parameters (the formatter lays more than three parameters
+    // out one per line), calls with as many arguments, a parameterless call
+    {
+        let prm = |n: &str, r: bool, t: RType| RParam { is_ref: r, name: n.into(), ty: t };
+        let mut decls = prelude_types();
+        decls.push(RDecl::Proc {
+            name: "four".into(),
+            params: vec![prm("p1", false, tname("int")), prm("p2", true, tname("int")), prm("p3", true, tname("A")), prm("p4", true, tname("M"))],
+            vars: vec![],
+            body: vec![RStmt::Assign(vname("p2"), bin(Op::Add, evar("p1"), RExpr::Var(idx(vname("p3"), eint(0)))))],
+        });
+        decls.push(RDecl::Proc {
+            name: "five".into(),
+            params: vec![prm("p1", false, tname("int")), prm("p2", false, tname("int")), prm("p3", false, tname("int")), prm("p4", true, tname("M")), prm("p5", true, tname("int"))],
+            vars: vec![RVarDecl { name: "w".into(), ty: tname("M") }],
+            body: vec![
+                RStmt::Call("four".into(), vec![evar("p1"), evar("p5"), RExpr::Var(idx(vname("p4"), eint(0))), evar("w")]),
+                RStmt::Call("none".into(), vec![]),
+            ],
+        });
+        decls.push(RDecl::Proc { name: "none".into(), params: vec![], vars: vec![], body: vec![] });
+        decls.push(main_with(vec![RStmt::Call(
+            "five".into(),
+            vec![eint(1), bin(Op::Mul, RExpr::Paren(Arc::new(bin(Op::Add, evar("i"), eint(1)))), eint(2)), RExpr::Neg(Arc::new(evar("j"))), evar("m"), evar("i")],
+        )]));
+        for focus in [2usize, 3, 5] {
+            out.push(Item { family: "many-parameters", program: RProgram { decls: decls.clone() }, focus_decl: focus });
+        }
     }
     // G1: whole programs over tiny pools, every order of declarations
     let (p, dp) = g1_pools();
